@@ -142,11 +142,13 @@ def bisync (le : P → P → Bool) (ge : C → C → Bool) (cname : P → C → 
   let b := scan s.B
   let base := s.arch.getD []
   let plan := reconcile le a b base s.arch.isSome
-  let (l, n, completed) := applyAllPartial ge cname a b plan { A := s.A, B := s.B, common := base } 0
-  if completed then
-    { state := { A := l.A, B := l.B, arch := some l.common }, planLen := plan.length, nConflicts := n,
-      status := if n = 0 then .ok else .conflicts }
+  -- `common.retain(|p, _| a.contains_key(p) || b.contains_key(p))`: entries for paths gone from both sides are dropped
+  let common0 := base.filter fun e => (lookup a e.1).isSome || (lookup b e.1).isSome
+  let r := applyAllPartial ge cname a b plan { A := s.A, B := s.B, common := common0 } 0
+  if r.2.2 then
+    { state := { A := r.1.A, B := r.1.B, arch := some r.1.common }, planLen := plan.length, nConflicts := r.2.1,
+      status := if r.2.1 = 0 then .ok else .conflicts }
   else
-    { state := { A := l.A, B := l.B, arch := s.arch }, planLen := plan.length, nConflicts := n, status := .ioError }
+    { state := { A := r.1.A, B := r.1.B, arch := s.arch }, planLen := plan.length, nConflicts := r.2.1, status := .ioError }
 
 end Copia.Bisync
